@@ -161,27 +161,28 @@ RULE_ITER = ("TLC enumerates every match set of every haystack length within the
              "of every backend (plus forced dispatch), identity and stretched, with size_hint, count() of a clone and the future of a mid-iteration clone compared")
 
 
-def tlaps_iter_window(ctx):
-    """Unbounded supplement (optional, never fails a check): TLAPS proof that the iterator window invariant is inductive
-    for arbitrary haystack length and match set (spec/proofs/IterWindow.tla)."""
+def tlaps_supplement(ctx, module="IterWindow", theorems=("InitInv", "NextInv", "Safety", "FreshYield", "DrainedMeansAll")):
+    """Unbounded supplement (optional, never fails a check): a TLAPS proof in spec/proofs -- IterWindow: the iterator window
+    invariant for arbitrary haystack length and match set; GenericFwdUnbounded: loads in bounds and first-match correctness of
+    the generic forward scan for arbitrary vector width, unroll factor, length, alignment and match set."""
     try:
-        p = subprocess.run(["timeout", "600", "tlapm", "--threads", "8", "--cleanfp", "IterWindow.tla"], cwd=os.path.join(C.SPEC, "proofs"),
+        p = subprocess.run(["timeout", "600", "tlapm", "--threads", "8", "--cleanfp", module + ".tla"], cwd=os.path.join(C.SPEC, "proofs"),
                            stdout=subprocess.PIPE, stderr=subprocess.STDOUT, text=True)
         import re as _re
         m = _re.search(r"All (\d+) obligations proved", p.stdout)
         if m:
-            return {"tlaps": {"module": "spec/proofs/IterWindow.tla", "obligations": int(m.group(1)), "discharged": int(m.group(1)),
-                              "theorems": ["InitInv", "NextInv", "Safety", "FreshYield", "DrainedMeansAll"]}}
-        ctx.vehicles_skipped.append({"vehicle": "tlaps IterWindow", "reason": p.stdout[-300:]})
+            return {"tlaps": {"module": "spec/proofs/%s.tla" % module, "obligations": int(m.group(1)), "discharged": int(m.group(1)),
+                              "theorems": list(theorems)}}
+        ctx.vehicles_skipped.append({"vehicle": "tlaps " + module, "reason": p.stdout[-300:]})
     except Exception as e:
-        ctx.vehicles_skipped.append({"vehicle": "tlaps IterWindow", "reason": repr(e)})
+        ctx.vehicles_skipped.append({"vehicle": "tlaps " + module, "reason": repr(e)})
     return {}
 
 
 def c06(ctx):
     iter_part(ctx, {"result", "panic"})
     iter_traces(ctx, 150 if ctx.quick else 1500, ops_filter={"next", "next_back"})
-    extra = {} if ctx.quick else tlaps_iter_window(ctx)
+    extra = {} if ctx.quick else tlaps_supplement(ctx)
     return C.finish(ctx, "model_checking", RULE_ITER, extra_cov=extra)
 
 
@@ -904,7 +905,8 @@ def c09(ctx):
 def c01(ctx):
     byte_search(ctx, ["find"], {"result", "panic"})
     lib_traces(ctx, "bytes", "first", "all", 1500 if ctx.quick else 12000, "bytes")
-    return C.finish(ctx, "model_checking", RULE_BYTES)
+    extra = {} if ctx.quick else tlaps_supplement(ctx, "GenericFwdUnbounded", ("InitInv", "NextInv", "Safety"))
+    return C.finish(ctx, "model_checking", RULE_BYTES, extra_cov=extra)
 
 
 def c02(ctx):
